@@ -187,6 +187,29 @@ contract(
 )
 
 
+# mapped reconstructed visibilities: V_i = sum_j s_j T_ij (real and imaginary parts), the interferometer form of "the model data of a
+# linear object equals its transformed mapping matrix times its slice of the reconstruction" (C05, last clause)
+_MRE = "sumto({n}, lambda j: reconstruction[j] * creal(transformed_mapping_matrix[{i}, j]))"
+_MIM = "sumto({n}, lambda j: reconstruction[j] * cimag(transformed_mapping_matrix[{i}, j]))"
+_MBOTH = "creal({a}[{i}]) == " + _MRE + " and cimag({a}[{i}]) == " + _MIM
+_MV = "mapped_reconstructed_visibilities"
+contract(
+    IU + "mapped_reconstructed_visibilities_from", props=["C05", "C13"],
+    types={"transformed_mapping_matrix": "complex[2]", "reconstruction": "real[1]"}, returns="complex[1]",
+    let={"K": "transformed_mapping_matrix.shape[0]", "P": "reconstruction.shape[0]"},
+    requires=["transformed_mapping_matrix.shape[1] >= P"],
+    ensures=["result.shape[0] == K", "forall(0, K, lambda i: " + _MBOTH.format(a="result", i="i", n="P") + ")"],
+    loops={
+        0: {"inv": ["forall(0, i, lambda a: " + _MBOTH.format(a=_MV, i="a", n="P") + ")",
+                    "forall(i, K, lambda a: creal(%s[a]) == 0 and cimag(%s[a]) == 0)" % (_MV, _MV)]},
+        1: {"inv": ["forall(0, i, lambda a: " + _MBOTH.format(a=_MV, i="a", n="P") + ")",
+                    "forall(i + 1, K, lambda a: creal(%s[a]) == 0 and cimag(%s[a]) == 0)" % (_MV, _MV),
+                    _MBOTH.format(a=_MV, i="i", n="j")]},
+    },
+    sentence={"sumto": "the mapped reconstructed visibilities equal the transformed mapping matrix times the reconstruction"},
+)
+
+
 # ----------------------------------------------------------------------------- preload == direct (corollaries)
 # The two visibilities contracts (and the two mapping-matrix contracts) state their sums over different summands
 # (table entry vs cos / sin of the phase), i.e. over two different partial-sum functions.  That the sums agree when the
@@ -338,3 +361,14 @@ CONTRACTS[T + "transformed_mapping_matrix_jit"].gen = _g_tmm
 for _n in ("transformed_mapping_matrix_via_preload_jit_from", "transformed_mapping_matrix_jit"):
     CONTRACTS[T + _n].nontrivial = lambda mapping_matrix, **kw: bool((mapping_matrix < 0).any())
 CONTRACTS[IU + "data_vector_via_transformed_mapping_matrix_from"].gen = _g_dv
+
+
+def _g_mrv(rng, tier):
+    for _ in range(gens.budget(tier, 150, 2000)):
+        k, p = rng.randint(0, 5), rng.randint(0, 4)
+        extra = rng.choice([0, 0, 0, 1])                       # the code reads only the first len(reconstruction) columns
+        yield {"transformed_mapping_matrix": gens.reals(rng, (k, p + extra), -3, 3, special=False) + 1j * gens.reals(rng, (k, p + extra), -3, 3, special=False),
+               "reconstruction": gens.reals(rng, (p,), -4, 4, special=False)}
+
+
+CONTRACTS[IU + "mapped_reconstructed_visibilities_from"].gen = _g_mrv
